@@ -264,5 +264,11 @@ func verifHarness_C06_intercept() {
 	a, pa, alma := rN.QuickMatch(m, t)
 	b, pb, almb := rI.QuickMatch(m, p)
 	verifAssert(verifSameAnswer(a, pa, alma, b, pb, almb), "with InterceptAll(t) every request is resolved exactly as a request for t")
+	// the public Match (any spelling of the method) is intercepted like QuickMatch and the dispatcher:
+	// also for a path that is, verbatim, a registered static route
+	for _, q := range []string{p, "/a", "/xa"} {
+		c, pc, almc := rI.Match(m, q)
+		verifAssert(verifSameAnswer(a, pa, alma, c, pc, almc), "Match on an intercepting router resolves the target as well")
+	}
 	verifCover("C06 intercept")
 }
